@@ -350,7 +350,12 @@ def strategy(draw):
         def with_absent(vals):
             fam_str = isinstance(vals[0], str)
             extra = ["__absent__"] if fam_str else [987654]
-            return list(vals) + (extra if draw(st.booleans()) else [])
+            if not fam_str and any(isinstance(v, float) and v != 0
+                                   for v in vals) and draw(st.booleans()):
+                # an absent label right next to a stored one (4e-6 relative)
+                near = next(v for v in vals if isinstance(v, float) and v)
+                extra = [near * (1 + 4e-6)]
+            return (extra if draw(st.booleans()) else []) + list(vals)
         combos = [[n, with_absent(v)[:4]] for n, v in cdims]
         case_args = [n for n, _ in kdims]
         if case_args and draw(st.booleans()):
